@@ -59,6 +59,7 @@ type Knobs struct {
 	PDecoOrphan int // decorator for a key that has no visible constructor (unspecified zone; only purely differential checks use it)
 	PInvokeAll  int // Invoke parameter drawn from visible keys
 	PInfo       int
+	PInfoShare  int // an Info struct is one of two shared slots instead of a fresh struct
 	PCallback   int
 	PDefer      int
 	PRecover    int
@@ -636,6 +637,7 @@ func (g *gen) genProvide(s int) Op {
 	}
 	if g.pct(g.k.PInfo, "info") {
 		o.Info = true
+		o.InfoSlot = g.infoSlot()
 	}
 	if g.pct(g.k.PCallback, "cb") {
 		o.CB = true
@@ -772,6 +774,7 @@ func (g *gen) genDecorate(s int) (Op, bool) {
 	o := &Opts{}
 	if g.pct(g.k.PInfo, "info") {
 		o.Info = true
+		o.InfoSlot = g.infoSlot()
 	}
 	if g.pct(g.k.PCallback, "cb") {
 		o.CB = true
@@ -862,9 +865,16 @@ func (g *gen) genInvoke(s int) Op {
 	}
 	op := Op{K: OpInvoke, S: s, F: f}
 	if g.pct(g.k.PInfo, "info") {
-		op.O = &Opts{Info: true}
+		op.O = &Opts{Info: true, InfoSlot: g.infoSlot()}
 	}
 	return op
+}
+
+func (g *gen) infoSlot() int {
+	if g.pct(g.k.PInfoShare, "infoshare") {
+		return 1 + g.pick(2, "infoslot")
+	}
+	return 0
 }
 
 func (g *gen) pickScope(lbl string) int { return g.pick(g.nscope, lbl) }
